@@ -160,9 +160,9 @@ func (w *zzC03bWorld) record(a *zzAcct, mas []ManagedAddress, branch, first uint
 var zzC03bPriv = []byte{0x21, 0x22, 0x33, 0x44, 0x55, 0x66, 0x77, 0x88, 0x99, 0xaa, 0xbb, 0xcc, 0xdd, 0xee, 0xff, 0x01,
 	0x11, 0x22, 0x33, 0x44, 0x55, 0x66, 0x77, 0x88, 0x99, 0xaa, 0xbb, 0xcc, 0xdd, 0xee, 0xff, 0x03}
 
-func (w *zzC03bWorld) step(ops int) {
+func (w *zzC03bWorld) step(ops []int) {
 	sm := w.sm()
-	switch verifrt.Choice(ops, "op") {
+	switch ops[verifrt.Choice(len(ops), "op")] {
 	case 0:
 		a := w.pickAcct()
 		n := uint32(1 + verifrt.Choice(2, "count"))
@@ -386,7 +386,46 @@ func (w *zzC03bWorld) recreate(seed []byte) {
 	}
 }
 
-func zzC03b(scope KeyScope, steps, ops int, imported bool, schema *ScopeAddrSchema) {
+func zzOps(n int) []int {
+	var l []int
+	for i := 0; i < n; i++ {
+		l = append(l, i)
+	}
+	return l
+}
+
+// zzC03bTwoLocked: two seeded accounts, manager LOCKED: addresses issued while
+// locked get their private keys at the next Unlock (derive-on-unlock list,
+// which then holds entries of both accounts).
+func zzC03bTwoLocked(scope KeyScope, steps int) {
+	w := &zzC03bWorld{zzMgrWorld: zzNewMgrWorld(zzSeedA), scope: scope, pass: zzPrvPass}
+	w.accts = []*zzAcct{{number: 0}}
+	zzMust(w.view(func(ns walletdb.ReadBucket) error { return w.mgr.Unlock(ns, zzPrvPass) }))
+	var num uint32
+	zzMust(w.update(func(ns walletdb.ReadWriteBucket) error {
+		var err error
+		num, err = w.sm().NewAccount(ns, "second")
+		return err
+	}))
+	w.accts = append(w.accts, &zzAcct{number: num})
+	w.created = 1
+	zzMust(w.mgr.Lock())
+	for s := 0; s < steps; s++ {
+		// next-external, next-internal, lock, unlock, restart
+		w.step([]int{0, 1, 3, 4, 5})
+		w.checkAll()
+		if !w.mgr.IsLocked() && len(w.issued) >= 2 {
+			verifrt.Reach("unlocked-after-issuing-while-locked")
+		}
+	}
+	verifrt.Reach("c03b-end")
+}
+
+func ZzC03TwoAcctsLockedL3() { zzC03bTwoLocked(KeyScopeBIP0084, 3) }
+func ZzC03TwoAcctsLockedL4() { zzC03bTwoLocked(KeyScopeBIP0084, 4) }
+
+func zzC03b(scope KeyScope, steps, nOps int, imported bool, schema *ScopeAddrSchema) {
+	ops := zzOps(nOps)
 	w := &zzC03bWorld{zzMgrWorld: zzNewMgrWorld(zzSeedA), scope: scope, pass: zzPrvPass}
 	w.accts = []*zzAcct{{number: 0}}
 	zzMust(w.view(func(ns walletdb.ReadBucket) error { return w.mgr.Unlock(ns, zzPrvPass) }))
